@@ -42,9 +42,11 @@ RatioD == 4
 VARIABLES tabs,     \* tabs[t]: the RawTable struct
           nops,     \* number of calls so far (0 if unbounded)
           last,     \* [tab, ev, sit, chg]: result of the last call
-          path      \* calls from the initial state (first arrival)
+          path,     \* calls from the initial state (first arrival)
+          aset      \* aset[t] = Abs(tabs[t]) (kept as a variable only so that TLC
+                    \* computes the refinement mapping once per step; see AbsOK)
 
-vars == <<tabs, nops, last, path>>
+vars == <<tabs, nops, last, path, aset>>
 View == <<tabs, nops>>
 
 ----------------------------------------------------------------------------
@@ -85,6 +87,8 @@ El(s) == <<s.k, s.v>>
 
 Hung == [data |-> <<>>, len |-> 0, free |-> 0, hung |-> TRUE]
 Cap(tb) == Len(tb.data)
+(* the refinement mapping: the elements in occupied slots *)
+Abs(tb) == {El(tb.data[i]) : i \in {j \in 1 .. Cap(tb) : tb.data[j].st = 2}}
 MinOf(S) == CHOOSE x \in S : \A y \in S : x <= y
 Max2(a, b) == IF a >= b THEN a ELSE b
 
@@ -323,6 +327,7 @@ Init ==
   /\ nops = 0
   /\ last = [tab |-> WithCap(0), ev |-> NoCall, sit |-> "init", chg |-> FALSE]
   /\ path = <<>>
+  /\ aset = [t \in Tab |-> {}]
 
 Cmd(l) == <<l.ev.op, l.ev.t, l.ev.u, l.ev.k, l.ev.v, l.ev.p, l.ev.n, l.sit>>
 WithChg(r, old) == [tab |-> r.tab, ev |-> r.ev, sit |-> r.sit, chg |-> r.tab # old]
@@ -332,6 +337,7 @@ Commit(t) ==
   /\ tabs' = [tabs EXCEPT ![t] = last'.tab]
   /\ nops' = IF MaxOps = 0 THEN 0 ELSE nops + 1
   /\ path' = Append(path, Cmd(last'))
+  /\ aset' = [aset EXCEPT ![t] = Abs(last'.tab)]
 
 (* HT_DISABLE_<op>: the check is re-run without a call that violated an
    invariant, to look for violations that do not need this call *)
@@ -374,8 +380,8 @@ Bound == MaxOps = 0 \/ nops <= MaxOps
 ----------------------------------------------------------------------------
 (* refinement: the abstract set is the set of elements in occupied slots *)
 
-Abs(tb) == {El(tb.data[i]) : i \in {j \in 1 .. Cap(tb) : tb.data[j].st = 2}}
-A == INSTANCE HashTbl WITH set <- [t \in Tab |-> Abs(tabs[t])], last <- last.ev
+A == INSTANCE HashTbl WITH set <- aset, last <- last.ev
+AbsOK == aset = [t \in Tab |-> Abs(tabs[t])]
 (* A!ANext with the witnesses taken from the call record (equivalent to
    checking A!ASpec, but TLC need not search for the abstract action) *)
 RefStep ==
@@ -416,8 +422,8 @@ FreeSound == SkipInv("FreeSound") \/ \A t \in Tab : tabs[t].free <= NumSt(tabs[t
 LoadBound == SkipInv("LoadBound") \/ \A t \in Tab : tabs[t].free >= 0 /\ RatioD * tabs[t].free >= Cap(tabs[t])
 LenExact  == SkipInv("LenExact") \/ \A t \in Tab : tabs[t].len = NumSt(tabs[t].data, 2)
 KeysUnique ==
-  \A t \in Tab : \A i, j \in 1 .. Cap(tabs[t]) :
-     (i # j /\ tabs[t].data[i].st = 2 /\ tabs[t].data[j].st = 2) => tabs[t].data[i].k # tabs[t].data[j].k
+  \A t \in Tab : LET oc == OccSeq(tabs[t].data)
+                 IN  Cardinality({tabs[t].data[oc[j]].k : j \in 1 .. Len(oc)}) = Len(oc)
 (* every element is reachable from its home slot without crossing a FREE slot *)
 Reachable ==
   \A t \in Tab : \A i \in 1 .. Cap(tabs[t]) :
